@@ -63,7 +63,7 @@ class Sum(SameArrayShapeMixin, Command):
         result = arrays[0].copy()
 
         for arr in arrays[1:]:
-            result += arr
+            result = result + arr
 
         return result
 
@@ -91,7 +91,7 @@ class WeightedSum(SameArrayShapeMixin, Command):
 
         result = arrays[0] * weights[0]
         for weight, arr in zip(weights[1:], arrays[1:]):
-            result += arr * weight
+            result = result + arr * weight
 
         return result
 
@@ -213,7 +213,7 @@ class WeightedMean(SameArrayShapeMixin, Command):
 
         result = arrays[0] * weights[0]
         for weight, arr in zip(weights[1:], arrays[1:]):
-            result += arr * weight
+            result = result + arr * weight
 
         return result / sum(weights)
 
